@@ -1,7 +1,7 @@
 (* C01 (a) ordering and (b) propagation, derived from the mount trace. *)
 From LC Require Import Lib.Bytes Lib.Lex Lib.Fields Lib.PathM Gen.Consts
   Model.MountInfo Model.FsTree Model.Kernel Model.Layers Cases.Verdict Cases.LC Cases.C01
-  Proofs.MonadP Proofs.MntSimP Proofs.MntWpP Proofs.MntTraceP Proofs.MntDiskP.
+  Proofs.MntSimP Proofs.MntWpP Proofs.MntTraceP Proofs.MntDiskP.
 Import LCS.
 Open Scope N_scope.
 
@@ -61,11 +61,11 @@ Proof.
   destruct (ok && memb (it_src it) propagation_sources); reflexivity.
 Qed.
 
-Lemma itrace_targets ks ksc its ops ks' ksc' st :
-  itrace ks ksc its ops ks' ksc' st -> Subseq (mount_targets ops) (map it_tgt its).
+Lemma itrace_targets ks its ops ks' st :
+  itrace ks its ops ks' st -> Subseq (mount_targets ops) (map it_tgt its).
 Proof.
-  induction 1 as [ks ksc|ks ksc its|ks ksc it its ops ks' ksc' st Hc Ht IH
-                 |ks ksc it its f ks1 ops ks' ksc' st Hc Hk Ht IH|ks ksc it its f Hc Hk]; cbn [map].
+  induction 1 as [ks|ks its|ks it its ops ks' st Hc Ht IH
+                 |ks it its f ks1 ops ks' st Hc Hk Ht IH|ks it its f Hc Hk]; cbn [map].
   - constructor.
   - constructor.
   - now apply SS_skip.
@@ -76,7 +76,7 @@ Qed.
 Lemma ltrace_targets ks ls ops ks' st :
   ltrace ks ls ops ks' st -> Subseq (mount_targets ops) (concat (map (map it_tgt) ls)).
 Proof.
-  induction 1 as [ks|ks ls|ks its ls ops1 ks1 ksc1 ops2 ks2 st Hi Hl IH|ks its ls ops1 ks1 ksc1 st Hst Hi];
+  induction 1 as [ks|ks ls|ks its ls ops1 ks1 ops2 ks2 st Hi Hl IH|ks its ls ops1 ks1 st Hst Hi];
     cbn [map concat].
   - constructor.
   - constructor.
@@ -114,107 +114,71 @@ Proof.
 Qed.
 
 (* ------------------------------------------------------------------ propagation *)
-(* a source /dev, /sys, /run is only ever imported with type rbind *)
-Definition psrc_ok (it : item) : bool :=
-  negb (memb (it_src it) propagation_sources) || beq (it_ty it) (bs "rbind").
-
-Lemma prop_mops_true it rest : psrc_ok it = true ->
-  C01.propagation_ok (mops it true ++ rest) = C01.propagation_ok rest.
+Lemma prop_mops_true fl it rest :
+  C01.propagation_ok fl (mops it true ++ rest) = C01.propagation_ok fl rest.
 Proof.
-  unfold psrc_ok, mops. cbn [andb]. intros H.
+  unfold mops. cbn [andb].
   destruct (memb (it_src it) propagation_sources) eqn:Em.
-  - cbn [negb orb] in H. apply beq_true in H.
-    cbn [app C01.propagation_ok op1 op2]. rewrite H, Em.
-    change (mount_flags (bs "rbind")) with (MS_BIND + MS_REC).
-    change (has_flag (MS_BIND + MS_REC) MS_SLAVE) with false.
-    change (has_flag (MS_BIND + MS_REC) MS_BIND) with true.
-    change (has_flag (MS_BIND + MS_REC) MS_REC) with true.
-    cbn [andb beq]. rewrite beq_refl, N.eqb_refl. reflexivity.
-  - cbn [app C01.propagation_ok op1]. rewrite mount_flags_noslave, Em, !andb_false_r. reflexivity.
+  - cbn [app C01.propagation_ok op1 op2]. rewrite mount_flags_noslave, Em.
+    change (has_flag (MS_SLAVE + MS_REC) MS_SLAVE) with true. cbv iota.
+    cbn [beq]. rewrite beq_refl, N.eqb_refl. reflexivity.
+  - cbn [app C01.propagation_ok op1]. rewrite mount_flags_noslave, Em. reflexivity.
 Qed.
 
-Lemma itrace_prop ks ksc its ops ks' ksc' st :
-  itrace ks ksc its ops ks' ksc' st -> forallb psrc_ok its = true -> st <> TFailed ->
-  forall rest, C01.propagation_ok (ops ++ rest) = C01.propagation_ok rest.
+Lemma prop_mops_false it : C01.propagation_ok true (mops it false) = true.
 Proof.
-  induction 1 as [ks ksc|ks ksc its|ks ksc it its ops ks' ksc' st Hc Ht IH
-                 |ks ksc it its f ks1 ops ks' ksc' st Hc Hk Ht IH|ks ksc it its f Hc Hk];
-    cbn [forallb]; intros Hok Hst rest; try reflexivity.
-  - apply andb_true_iff in Hok as [_ Hok]. now apply IH.
-  - apply andb_true_iff in Hok as [H1 Hok]. rewrite <- app_assoc, prop_mops_true by exact H1. now apply IH.
+  unfold mops. cbn [andb C01.propagation_ok op1]. rewrite mount_flags_noslave.
+  destruct (memb (it_src it) propagation_sources); reflexivity.
+Qed.
+
+Lemma itrace_prop fl ks its ops ks' st :
+  itrace ks its ops ks' st -> st <> TFailed ->
+  forall rest, C01.propagation_ok fl (ops ++ rest) = C01.propagation_ok fl rest.
+Proof.
+  induction 1 as [ks|ks its|ks it its ops ks' st Hc Ht IH
+                 |ks it its f ks1 ops ks' st Hc Hk Ht IH|ks it its f Hc Hk];
+    intros Hst rest; try reflexivity.
+  - now apply IH.
+  - rewrite <- app_assoc, prop_mops_true. now apply IH.
   - congruence.
 Qed.
 
-Lemma ltrace_prop ks ls ops ks' st :
-  ltrace ks ls ops ks' st -> forallb (forallb psrc_ok) ls = true -> st <> TFailed ->
-  forall rest, C01.propagation_ok (ops ++ rest) = C01.propagation_ok rest.
+Lemma itrace_prop_failed ks its ops ks' st :
+  itrace ks its ops ks' st -> st = TFailed -> C01.propagation_ok true ops = true.
 Proof.
-  induction 1 as [ks|ks ls|ks its ls ops1 ks1 ksc1 ops2 ks2 st Hi Hl IH|ks its ls ops1 ks1 ksc1 st Hst Hi];
-    cbn [forallb]; intros Hok Hnf rest; try reflexivity.
-  - apply andb_true_iff in Hok as [H1 Hok]. rewrite <- app_assoc.
-    rewrite (itrace_prop _ _ _ _ _ _ _ Hi H1) by discriminate. now apply IH.
-  - apply andb_true_iff in Hok as [H1 Hok]. now apply (itrace_prop _ _ _ _ _ _ _ Hi H1).
+  induction 1 as [ks|ks its|ks it its ops ks' st Hc Ht IH
+                 |ks it its f ks1 ops ks' st Hc Hk Ht IH|ks it its f Hc Hk];
+    intros Hst; try discriminate.
+  - now apply IH.
+  - rewrite prop_mops_true. now apply IH.
+  - apply prop_mops_false.
 Qed.
 
-(* the hypothesis in the vocabulary of the specification *)
-Definition psources_rbind (c : cfgT) (ch : list layer) : bool :=
-  forallb (fun em => negb (memb (em_source em) propagation_sources) || beq (em_fstype em) (bs "rbind"))
-          (expected_chain_mounts c ch).
-
-Lemma psources_items c f n : psources_rbind c (chain c f n) = true ->
-  forallb (forallb psrc_ok) (chain_items c f n) = true.
+Lemma ltrace_prop fl ks ls ops ks' st :
+  ltrace ks ls ops ks' st -> st <> TFailed ->
+  forall rest, C01.propagation_ok fl (ops ++ rest) = C01.propagation_ok fl rest.
 Proof.
-  unfold psources_rbind, expected_chain_mounts, chain_items. intros H.
-  rewrite forallb_forall in H. apply forallb_forall. intros its Hits.
-  apply in_map_iff in Hits as (x & <- & Hx). apply forallb_forall. intros it Hit.
-  destruct (items_expected c f n x Hx) as (rest & E & _).
-  apply (H (item_em it)). apply in_flat_map. exists x. split; [exact Hx|].
-  rewrite E. apply in_or_app. left. now apply in_map.
-Qed.
-
-Theorem propagation_of_trace c f n ks ops ks' st :
-  ltrace ks (chain_items c f n) ops ks' st -> psources_rbind c (chain c f n) = true ->
-  st <> TFailed -> C01.propagation_ok ops = true.
-Proof.
-  intros Ht Hp Hst. rewrite <- (app_nil_r ops).
-  rewrite (ltrace_prop _ _ _ _ _ Ht (psources_items c f n Hp) Hst). reflexivity.
-Qed.
-
-(* when the run stopped on a failed mount call, everything before that call is well paired *)
-Lemma itrace_prop_failed ks ksc its ops ks' ksc' st :
-  itrace ks ksc its ops ks' ksc' st -> forallb psrc_ok its = true -> st = TFailed ->
-  exists pre o, ops = pre ++ [o]
-    /\ forall rest, C01.propagation_ok (pre ++ rest) = C01.propagation_ok rest.
-Proof.
-  induction 1 as [ks ksc|ks ksc its|ks ksc it its ops ks' ksc' st Hc Ht IH
-                 |ks ksc it its f ks1 ops ks' ksc' st Hc Hk Ht IH|ks ksc it its f Hc Hk];
-    cbn [forallb]; intros Hok Hst; try discriminate.
-  - apply andb_true_iff in Hok as [_ Hok]. now apply IH.
-  - apply andb_true_iff in Hok as [H1 Hok]. destruct (IH Hok Hst) as (pre & o & -> & Hp).
-    exists (mops it true ++ pre), o. split; [now rewrite app_assoc|].
-    intros rest. rewrite <- app_assoc, prop_mops_true by exact H1. apply Hp.
-  - exists [], (op1 it). split; reflexivity.
+  induction 1 as [ks|ks ls|ks its ls ops1 ks1 ops2 ks2 st Hi Hl IH|ks its ls ops1 ks1 st Hst Hi];
+    intros Hnf rest; try reflexivity.
+  - rewrite <- app_assoc. rewrite (itrace_prop fl _ _ _ _ _ Hi) by discriminate. now apply IH.
+  - now apply (itrace_prop fl _ _ _ _ _ Hi).
 Qed.
 
 Lemma ltrace_prop_failed ks ls ops ks' st :
-  ltrace ks ls ops ks' st -> forallb (forallb psrc_ok) ls = true -> st = TFailed ->
-  exists pre o, ops = pre ++ [o]
-    /\ forall rest, C01.propagation_ok (pre ++ rest) = C01.propagation_ok rest.
+  ltrace ks ls ops ks' st -> st = TFailed -> C01.propagation_ok true ops = true.
 Proof.
-  induction 1 as [ks|ks ls|ks its ls ops1 ks1 ksc1 ops2 ks2 st Hi Hl IH|ks its ls ops1 ks1 ksc1 st Hst Hi];
-    cbn [forallb]; intros Hok Hf; try discriminate.
-  - apply andb_true_iff in Hok as [H1 Hok]. destruct (IH Hok Hf) as (pre & o & -> & Hp).
-    exists (ops1 ++ pre), o. split; [now rewrite app_assoc|].
-    intros rest. rewrite <- app_assoc.
-    rewrite (itrace_prop _ _ _ _ _ _ _ Hi H1) by discriminate. apply Hp.
-  - apply andb_true_iff in Hok as [H1 Hok]. now apply (itrace_prop_failed _ _ _ _ _ _ _ Hi H1).
+  induction 1 as [ks|ks ls|ks its ls ops1 ks1 ops2 ks2 st Hi Hl IH|ks its ls ops1 ks1 st Hst Hi];
+    intros Hf; try discriminate.
+  - rewrite (itrace_prop true _ _ _ _ _ Hi) by discriminate. now apply IH.
+  - now apply (itrace_prop_failed _ _ _ _ _ Hi).
 Qed.
 
-Theorem propagation_of_trace_failed c f n ks ops ks' st :
-  ltrace ks (chain_items c f n) ops ks' st -> psources_rbind c (chain c f n) = true ->
-  st = TFailed -> C01.propagation_ok (removelast ops) = true.
+(* the propagation conjunct, for the flag the specification passes (result = RFail) *)
+Theorem propagation_of_trace fl ks ls ops ks' st :
+  ltrace ks ls ops ks' st -> (st = TFailed -> fl = true) -> C01.propagation_ok fl ops = true.
 Proof.
-  intros Ht Hp Hst.
-  destruct (ltrace_prop_failed _ _ _ _ _ Ht (psources_items c f n Hp) Hst) as (pre & o & -> & Hpre).
-  rewrite removelast_last, <- (app_nil_r pre), Hpre. reflexivity.
+  intros Ht Hfl. destruct st.
+  - rewrite <- (app_nil_r ops), (ltrace_prop fl _ _ _ _ _ Ht) by discriminate. reflexivity.
+  - rewrite <- (app_nil_r ops), (ltrace_prop fl _ _ _ _ _ Ht) by discriminate. reflexivity.
+  - rewrite (Hfl eq_refl). now apply (ltrace_prop_failed _ _ _ _ _ Ht).
 Qed.
